@@ -87,6 +87,10 @@ func (c *Ctx) c17IndexAgreement() {
 	c.c17IndexScope()
 	r.Rule("R17.13", "locking stays inside one manager: object ids of different managers share the namespace of the proposal index (obj-<id>), so when SubmitProposal pauses lower-priority proposals of 'the same object', the status change to PAUSED lies behind a comparison of the found proposal's type with the type of the submitting manager; otherwise any account that may submit some proposal with a chosen id (RegisterAppchain with the id of somebody's dapp) pauses that object's open proposal.")
 	c.c17LockScope()
+	c.c17ExactIdentity()
+	c.c17FreeOnlyLeaving()
+	c.c17ManageTarget()
+	c.c17OccupancySeesRoles()
 	type site struct {
 		idx, ctor, pos, fn string
 	}
